@@ -150,24 +150,24 @@ class G:
             w = self.pick(WORDS + ['@[S]@'] if self.has('string') else WORDS)
             self.t(w, 'text')
 
-    def here_doc(self):
+    def here_doc(self, min_lines=0):
         marker = self.pick(['EOF', 'EOF', 'END', 'MARKER_1', 'eof-2'])
         self.t('<<' + marker, 'heredoc')
         self.nl()
-        for _ in range(self.n(4)):
+        for _ in range(min_lines + self.n(4 - min_lines)):
             self.text_words(1, 3)
             self.nl()
         self.t(marker, 'marker')
         self.eol()
 
-    def rich_string(self, kind='str', values=None, allow_multi=True):
+    def rich_string(self, kind='str', values=None, allow_multi=True, non_empty=False):
         form = self.n(8)
         if form == 6 and allow_multi:
             self.t(':>', 'kw')
             self.text_words(1, 3)
             self.eol()
         elif form == 7 and allow_multi:
-            self.here_doc()
+            self.here_doc(1 if non_empty else 0)
         else:
             self.string(kind, values)
 
@@ -717,7 +717,7 @@ class G:
         self.t(SYM[key], 'name')
         self.t('=', 'kw')
         if key == 'string':
-            self.rich_string()
+            self.rich_string(non_empty=True)  # S is also used as a file name
         elif key == 'int-string':
             self.t(self.pick(['2', '1', '3']), 'int')
         elif key == 'list':
